@@ -282,23 +282,37 @@ def _kleene_test(t, env):
     raise AnalysisError(f"C21.kleene: test outside the fragment: {ast.unparse(t)}")
 
 
-def _kleene_run(fn, env):
-    for st in fn.body:
+_FALLS = object()
+
+
+def _kleene_block(stmts, env):
+    """value returned by a block of if / return statements (nested arms allowed), or _FALLS when it falls through"""
+    for st in stmts:
         if isinstance(st, ast.Expr) and isinstance(st.value, ast.Constant):
             continue
+        if isinstance(st, ast.Pass):
+            continue
         if isinstance(st, ast.If):
-            if _kleene_test(st.test, env):
-                for s in st.body:
-                    if isinstance(s, ast.Return):
-                        return _kleene_eval(s.value, env)
-                raise AnalysisError("C21.kleene: branch without return")
-            if st.orelse:
-                raise AnalysisError("C21.kleene: else branch outside the fragment")
+            r = _kleene_block(st.body if _kleene_test(st.test, env) else st.orelse, env)
+            if r is not _FALLS:
+                return r
             continue
         if isinstance(st, ast.Return):
+            if isinstance(st.value, ast.IfExp):
+                v = st.value
+                while isinstance(v, ast.IfExp):
+                    v = v.body if _kleene_test(v.test, env) else v.orelse
+                return _kleene_eval(v, env)
             return _kleene_eval(st.value, env)
         raise AnalysisError(f"C21.kleene: statement outside the fragment: {norm(st)}")
-    raise AnalysisError("C21.kleene: falls off the end")
+    return _FALLS
+
+
+def _kleene_run(fn, env):
+    r = _kleene_block(fn.body, env)
+    if r is _FALLS:
+        raise AnalysisError("C21.kleene: falls off the end")
+    return r
 
 
 @rule(
@@ -1128,6 +1142,42 @@ def c25_bounds(R):
     F.has("int_min = -2 ** (size - 1)")
     F.has("bound_max = right_max if is_equal else right_max - 1 if is_lt else right_max + 1")
     F.has("bound_min = right_min if is_equal else right_min - 1 if is_lt else right_min + 1")
+    # the recorded candidates, compared as *values*: the function and a reference are both brought to the same
+    # resolved form (helpers inlined, every single-assignment local replaced by what it stands for), so it does not
+    # matter which temporaries exist, what they are called, or whether a helper computes the adjusted bound
+    hcr = util.resolve_locals(tree.func_inlined(BAL, "Balancer._handle_comparison", exclude=("_add_upper_bound", "_add_lower_bound", "_min", "_max")))
+    ps = positional_params(hcr)
+    R.need(len(ps) == 2, "_handle_comparison no longer takes (self, truism)")
+    ref_src = (
+        f"def _ref({ps[0]}, {ps[1]}):\n"
+        f"    is_lt, is_equal, is_unsigned = {ps[0]}.comparison_info[{ps[1]}.op]\n"
+        f"    size = len({ps[1]}.args[0])\n"
+        f"    int_max = 2 ** size - 1 if is_unsigned else 2 ** (size - 1) - 1\n"
+        f"    int_min = -2 ** (size - 1)\n"
+        f"    left_min = Balancer._min({ps[1]}.args[0], signed=not is_unsigned)\n"
+        f"    left_max = Balancer._max({ps[1]}.args[0], signed=not is_unsigned)\n"
+        f"    right_min = Balancer._min({ps[1]}.args[1], signed=not is_unsigned)\n"
+        f"    right_max = Balancer._max({ps[1]}.args[1], signed=not is_unsigned)\n"
+        f"    bound_max = right_max if is_equal else right_max - 1 if is_lt else right_max + 1\n"
+        f"    bound_min = right_min if is_equal else right_min - 1 if is_lt else right_min + 1\n"
+        f"    UP = (int_max, left_max, bound_max)\n"
+        f"    LO = (int_min, left_min, bound_min)\n"
+        f"    UP2 = (int_max, left_max, right_max if is_equal else right_max + 1 if not is_lt else right_max - 1)\n"
+        f"    LO2 = (int_min, left_min, right_min if is_equal else right_min + 1 if not is_lt else right_min - 1)\n"
+        f"    return UP, LO, UP2, LO2\n"
+    )
+    from ..core import _normalise
+
+    ref_mod = ast.parse(ref_src)
+    _normalise(ref_mod)
+    for node in ast.walk(ref_mod):
+        for child in ast.iter_child_nodes(node):
+            child._parent = node
+    ref_fn = util.resolve_locals(ref_mod.body[0])
+    ref_ret = [n for n in ast.walk(ref_fn) if isinstance(n, ast.Return)][-1].value
+    want_up = [{ast.dump(e) for e in t.elts} for t in (ref_ret.elts[0], ref_ret.elts[2])]
+    want_lo = [{ast.dump(e) for e in t.elts} for t in (ref_ret.elts[1], ref_ret.elts[3])]
+
     def recorded_value(call):
         """what is recorded as the bound: the call's second argument, or the last value given to that local before
         the call in the same block"""
@@ -1147,17 +1197,29 @@ def c25_bounds(R):
                         return prev.value
         return v
 
-    ups = [c for c in _calls(hc) if isinstance(c.func, ast.Attribute) and c.func.attr == "_add_upper_bound"]
-    lows = [c for c in _calls(hc) if isinstance(c.func, ast.Attribute) and c.func.attr == "_add_lower_bound"]
+    def folded(call, fold):
+        v = recorded_value(call)
+        if isinstance(v, ast.Call) and isinstance(v.func, ast.Name) and v.func.id == fold and not v.keywords:
+            return {ast.dump(e) for e in v.args}
+        return None
+
+    ups = [c for c in _calls(hcr) if isinstance(c.func, ast.Attribute) and c.func.attr == "_add_upper_bound"]
+    lows = [c for c in _calls(hcr) if isinstance(c.func, ast.Attribute) and c.func.attr == "_add_lower_bound"]
+    got_up = folded(ups[0], "min") if len(ups) == 1 else None
+    got_lo = folded(lows[0], "max") if len(lows) == 1 else None
+    shape_ok = got_up is not None and got_lo is not None and len(got_up) == 3 and len(got_lo) == 3
+    # two of the three candidates (type limit, own range) and the fold
     R.check(
-        len(ups) == 1 and len(lows) == 1
-        and recorded_value(ups[0]) is not None and F.canon(recorded_value(ups[0])) == "min(int_max, left_max, bound_max)"
-        and recorded_value(lows[0]) is not None and F.canon(recorded_value(lows[0])) == "max(int_min, left_min, bound_min)", m, hc,
-            "upper bound = min of candidates, lower bound = max of candidates", "_handle_comparison combines its candidate bounds differently",
-            construct="_handle_comparison candidates")
+        shape_ok and len(got_up & want_up[0]) >= 2 and len(got_lo & want_lo[0]) >= 2,
+        m,
+        hc,
+        "upper bound = min of candidates, lower bound = max of candidates",
+        "_handle_comparison combines its candidate bounds differently (expected min / max over the type limit, the "
+        "left-hand side's own range and the adjusted right-hand bound)",
+        construct="_handle_comparison candidates",
+    )
     R.check(
-        F.has("bound_max = right_max if is_equal else right_max - 1 if is_lt else right_max + 1")
-        and F.has("bound_min = right_min if is_equal else right_min - 1 if is_lt else right_min + 1"),
+        shape_ok and got_up in want_up and got_lo in want_lo,
         m,
         hc,
         "strict comparisons move the bound by one in the right direction",
@@ -1218,6 +1280,8 @@ def c25_unpack(R):
     for st in ast.walk(un):
         if isinstance(st, ast.If) and st.body and isinstance(st.body[0], ast.Return) and st.body[0].value is not None:
             arms[ast.unparse(st.test)] = st.body[0].value
+        if isinstance(st, ast.IfExp):  # the same chain written (or inlined) as a conditional expression
+            arms.setdefault(ast.unparse(st.test), st.body)
     R.check(
         arms.get("c.args[0].op == 'And'") is not None and util.alpha_eq(arms["c.args[0].op == 'And'"], "Balancer._unpack_truisms(claripy.Or(*[claripy.Not(a) for a in c.args[0].args]))", un),
         m,
@@ -1375,6 +1439,8 @@ def c23_hashfields(R):
     ms = util.methods_of(cls)
     h, cp = ms.get("__hash__"), ms.get("copy")
     R.need(h is not None and cp is not None, "StridedInterval.__hash__/copy not found")
+    h = util.resolve_locals(tree.func_inlined(SI, "StridedInterval.__hash__"))
+    cp = tree.func_inlined(SI, "StridedInterval.copy")  # a shared private copy helper reads as its body
     carried = {}
     for c in (x for x in ast.walk(cp) if isinstance(x, ast.Call) and (dotted(x.func) or "") == "StridedInterval"):
         for k in c.keywords:
@@ -1807,6 +1873,12 @@ def c21_narrow(R):
     n = 0
     for name, fn in util.methods_of(cls).items():
         params = {a.arg for a in fn.args.args} - {"self"}
+        if not any(
+            isinstance(x, ast.Call) and (dotted(x.func) or "") == "StridedInterval" and any(k.arg == "bits" and isinstance(k.value, ast.Name) and k.value.id in params for k in x.keywords)
+            for x in walk_no_nested(fn)
+        ):
+            continue
+        fn = tree.func_inlined(SI, f"StridedInterval.{name}")  # predicates moved into private helpers read as their bodies
         if any(_is_bound_diff(x) for x in ast.walk(fn)):
             fn = util.inline_aliases(fn, _is_bound_diff)  # a hoisted `span = ub - lb` reads as the difference
         stride_locals = set()
